@@ -4,6 +4,16 @@ SIM_NOTE = ("trusted base: the behavioural nRF24L01+ simulator (vlib/sim, self-t
             "driver; chip assumptions (a)-(e) of DESIGN.md 2.6")
 
 CHECKS = [
+    {"property_id": "C15", "level": "exploration",
+     "text": "the validity predicate is compared with the reference on all 65536 values (exhaustive); a node of every role "
+             "(routing-only, network, mesh node, unassigned mesh node, mesh master) and level 0..4 receives, through the simulated "
+             "air, a bounded-exhaustive set of structured frames (256 types x length classes x destination x origin classes), "
+             "Hypothesis-generated payload sequences and a coverage-guided atheris/libFuzzer campaign (16 processes, empty and "
+             "seeded corpora) whose target contains the same oracle: update() returns normally within 3 s of virtual time, frames "
+             "rejected by the reference predicate cause no queue growth and no transmission",
+     "design_ref": "4/C15", "note": SIM_NOTE + "; exceptions are bucketed by (type, innermost library frame); a fuzz time budget "
+     "running out is not a verdict",
+     "technique": "exhaustive predicate differential + bounded-exhaustive structured frames + Hypothesis + coverage-guided fuzzing (atheris) with in-target oracle"},
     {"property_id": "C06", "level": "fault_enumeration",
      "text": "delivery patterns are enumerated exhaustively for a 2- and a 3-fragment message (every drop/once/twice word, every "
              "arrival order, dequeue after every step or at the end) and for two senders with equal frame ids (every loss word x "
